@@ -249,12 +249,17 @@ def compute_ir(
     form_names = {}
     for fd_index, fd in enumerate(analysis.form_data):
         form_names[fd_index] = naming.form_name(fd.original_form, fd_index, prefix)
+        multi_domain = any(
+            itg_data.domain != fd.integral_data[0].domain for itg_data in fd.integral_data
+        )
         for itg_index, itg_data in enumerate(fd.integral_data):
+            # Integrals of the same type and subdomain id over different
+            # meshes need different names
             integral_names[(fd_index, itg_index)] = naming.integral_name(
                 fd.original_form,
                 itg_data.integral_type,
                 fd_index,
-                itg_data.subdomain_id,
+                (itg_data.subdomain_id, itg_index) if multi_domain else itg_data.subdomain_id,
                 prefix,
             )
 
